@@ -23,6 +23,7 @@ from .c02 import pick_path
 
 PROP = "C04"
 TOL = Fraction(1, 10 ** 7)
+TOL_F = Fraction(1, 10 ** 2)      # single precision (the property's tolerance for float)
 
 
 def group_tasks(tier):
@@ -32,8 +33,14 @@ def group_tasks(tier):
 
 
 def closed_for_small(f, G, rng, prefix="a"):
-    env = G.sample_tangent(rng, prefix, rotnorm=1e-3)
-    return pick_path(f.paths("closed"), env)
+    """the closed-form path adjacent to the series region: picked by a sample just above the largest switch the code uses
+    (rotation norms 0.3, 1e-3, 1.5: whichever lies on an all-closed path first)"""
+    for rn in (0.3, 1e-3, 1.5):
+        env = G.sample_tangent(rng, prefix, rotnorm=rn)
+        pc = pick_path(f.paths("closed"), env)
+        if pc is not None:
+            return pc
+    return None
 
 
 def run_group(gname, s, tier="quick", seed=0, canary=False):
@@ -100,7 +107,7 @@ def run_group(gname, s, tier="quick", seed=0, canary=False):
         if not G.rot:
             return
         for nm, f in fJ.items():
-            pt = f.paths("taylor")
+            pt = f.paths(("taylor", "mixed"))
             if not pt:
                 continue
             pc = closed_for_small(f, G, rng)
@@ -108,11 +115,11 @@ def run_group(gname, s, tier="quick", seed=0, canary=False):
                 res.add("%s::%s/taylor" % (tag, nm), "error", "infra", 0.0, "closed path not identified %r" % f.count())
                 continue
             for k, p in enumerate(pt):
-                series_pairs(res, "%s::%s/taylor/p%d" % (tag, nm, k), mat_pairs(Jmat(p), Jmat(pc)), G, TOL, call=f.call(), pv=p)
+                series_pairs(res, "%s::%s/taylor/p%d" % (tag, nm, k), mat_pairs(Jmat(p), Jmat(pc)), G, (TOL if s == "d" else TOL_F), call=f.call(), pv=p)
                 if canary and nm == "dr_exp" and k == 0:
                     series_pairs(res, "%s::dr_exp/taylor-canary" % tag, mat_pairs(Jmat(p), Jmat(pc)), G, Fraction(1, 10 ** 40),
                                  expect_fail=True)
-            edge = [v for v in f.views if v.status == "ok" and v.cls in ("edge", "mixed")]
+            edge = [v for v in f.views if v.status == "ok" and v.cls in ("edge",)]
             if edge:
                 res.unverified.append("%s::%s: %d measure-zero path(s) with |a_rot|^2 == eps2 exactly" % (ct, nm, len(edge)))
     guarded(res, tag + "::taylor", do_taylor)
